@@ -74,11 +74,11 @@ type Divergence struct {
 
 // Violation: the implementation breaks the property's own predicate on a concrete input.
 type Violation struct {
-	Kind     string      `json:"kind"`               // short class, used to match known findings
-	What     string      `json:"what"`               // human text
-	Input    interface{} `json:"input"`              // concrete input / history (replayable)
-	Expected string      `json:"expected,omitempty"`
-	Observed string      `json:"observed,omitempty"`
+	Kind     string                 `json:"kind"`  // short class, used to match known findings
+	What     string                 `json:"what"`  // human text
+	Input    interface{}            `json:"input"` // concrete input / history (replayable)
+	Expected string                 `json:"expected,omitempty"`
+	Observed string                 `json:"observed,omitempty"`
 	Key      map[string]interface{} `json:"key,omitempty"` // fields the known-findings predicates look at
 }
 
@@ -110,7 +110,7 @@ func NewSummary(prop string, seed int64, tier string) *Summary {
 		Samples: []interface{}{}, Divergences: []Divergence{}, Violations: []Violation{}}
 }
 
-func (s *Summary) Count(k string) { s.Dist[k]++ }
+func (s *Summary) Count(k string)         { s.Dist[k]++ }
 func (s *Summary) CountN(k string, n int) { s.Dist[k] += n }
 
 // Case records one evaluated case; nontrivial cases are counted once per distinct key.
@@ -228,7 +228,7 @@ type Rng struct{ *rand.Rand }
 
 func NewRng(seed int64) *Rng { return &Rng{rand.New(rand.NewSource(seed))} }
 
-func (r *Rng) Pick(n int) int { return r.Intn(n) }
+func (r *Rng) Pick(n int) int        { return r.Intn(n) }
 func (r *Rng) Chance(p float64) bool { return r.Float64() < p }
 func (r *Rng) Range(lo, hi int64) int64 { // inclusive
 	if hi <= lo {
@@ -241,7 +241,7 @@ func (r *Rng) Range(lo, hi int64) int64 { // inclusive
 	return lo + int64(r.Uint64()%(span+1))
 }
 func (r *Rng) PickStr(xs []string) string { return xs[r.Intn(len(xs))] }
-func (r *Rng) PickI64(xs []int64) int64 { return xs[r.Intn(len(xs))] }
+func (r *Rng) PickI64(xs []int64) int64   { return xs[r.Intn(len(xs))] }
 
 // Int64Edge returns a boundary-biased int64.
 func (r *Rng) Int64Edge() int64 {
@@ -280,4 +280,36 @@ func Recover(f func()) (panicked bool, msg string) {
 	}()
 	f()
 	return
+}
+
+// RunVegeta pipes op lines through the vegeta binary built with -tags verif
+// (package-main line-protocol driver) and returns one output line per op.
+func RunVegeta(bin string, ops []string) ([]string, error) {
+	if len(ops) == 0 {
+		return nil, nil
+	}
+	cmd := exec.Command(bin)
+	cmd.Env = append(os.Environ(), "VEGETA_VERIF_DRIVER=1")
+	var in bytes.Buffer
+	for _, o := range ops {
+		in.WriteString(o)
+		in.WriteByte('\n')
+	}
+	cmd.Stdin = &in
+	var out bytes.Buffer
+	cmd.Stdout = &out
+	cmd.Stderr = os.Stderr
+	if err := cmd.Run(); err != nil {
+		return nil, fmt.Errorf("vegeta-verif: %w", err)
+	}
+	sc := bufio.NewScanner(&out)
+	sc.Buffer(make([]byte, 1<<20), 1<<30)
+	var lines []string
+	for sc.Scan() {
+		lines = append(lines, sc.Text())
+	}
+	if len(lines) != len(ops) {
+		return lines, fmt.Errorf("vegeta-verif returned %d lines for %d ops", len(lines), len(ops))
+	}
+	return lines, nil
 }
